@@ -165,7 +165,7 @@ func c11Hist(t []int, n1 int) []*big.Int {
 // the property's two-sided p-value and the value of the recorded finding
 // (the lower tail at min(U1,U2) doubled and capped, 1 when U1 == U2), as floats;
 // for the tag only
-func c11SpecTwoSided(t []int, n1, n2, twoU int) (spec, finding float64) {
+func c11SpecTwoSided(t []int, n1, n2, twoU int) (spec, finding float64, differ bool) {
 	h := c11Hist(t, n1)
 	small := min(twoU, 2*n1*n2-twoU)
 	le, ge, tot, lesmall := new(big.Int), new(big.Int), new(big.Int), new(big.Int)
@@ -195,9 +195,20 @@ func c11SpecTwoSided(t []int, n1, n2, twoU int) (spec, finding float64) {
 	}
 	spec = capped(m)
 	finding = capped(lesmall)
+	// differ: decided on the exact fractions (numerators over the common denominator tot)
+	capNum := func(m *big.Int) *big.Int {
+		m2 := new(big.Int).Lsh(m, 1)
+		if m2.Cmp(tot) > 0 {
+			return tot
+		}
+		return m2
+	}
+	fnum := capNum(lesmall)
 	if twoU == 2*n1*n2-twoU {
 		finding = 1
+		fnum = tot
 	}
+	differ = capNum(m).Cmp(fnum) != 0
 	return
 }
 
@@ -229,6 +240,44 @@ func c11ErfcArg(t []int, n1, n2, twoU int, alt int) float64 {
 	z := numer / sigma
 	one := 1.0
 	return -(z - 0) / (one * math.Sqrt2)
+}
+
+// the same argument from the textbook formula, independent of the code's operation
+// order: x = -(2(U - mu) + c) / sqrt(8 sigma^2), sigma^2 = n1 n2 ((N+1) N (N-1) - sum(t^3-t)) / (12 N (N-1)),
+// in 200-bit floating point, rounded to float64 once.
+func c11ErfcArgExact(t []int, n1, n2, twoU int, alt int) float64 {
+	tc := int64(0)
+	for _, x := range t {
+		tc += int64(x)*int64(x)*int64(x) - int64(x)
+	}
+	N := int64(n1 + n2)
+	vn := new(big.Int).Mul(big.NewInt(int64(n1)*int64(n2)), big.NewInt((N+1)*N*(N-1)-tc))
+	vd := big.NewInt(12 * N * (N - 1))
+	c := int64(twoU) - int64(n1)*int64(n2)
+	switch alt {
+	case 0:
+		if c > 0 {
+			c--
+		} else if c < 0 {
+			c++
+		}
+	case -1:
+		c++
+	case 1:
+		c--
+	}
+	// x^2 = c^2 vd / (8 vn)
+	num := new(big.Int).Mul(big.NewInt(c*c), vd)
+	den := new(big.Int).Mul(big.NewInt(8), vn)
+	if den.Sign() <= 0 {
+		return math.NaN()
+	}
+	q := new(big.Float).SetPrec(200).Quo(new(big.Float).SetPrec(200).SetInt(num), new(big.Float).SetPrec(200).SetInt(den))
+	r, _ := new(big.Float).SetPrec(200).Sqrt(q).Float64()
+	if c > 0 {
+		r = -r
+	}
+	return r
 }
 
 func c11Outcome(x1, x2 []float64, alt int) (sx hx.Sx, p float64, isNum bool) {
@@ -287,7 +336,7 @@ func c11SizeClass(n int) string {
 func c11UCase(o *hx.Out, x1, x2 []int64, alt int, stream string) {
 	f1, f2 := c11Floats(x1), c11Floats(x2)
 	untied, tied := st.ExactLimits()
-	out, p, isNum := c11Outcome(f1, f2, alt)
+	out, _, _ := c11Outcome(f1, f2, alt)
 	if c11Changed(f1, x1) || c11Changed(f2, x2) {
 		// the call wrote to its arguments: shown again as a history on one array (kind 4,
 		// c11hist.go), where the caller's values after the call are part of the case
@@ -318,12 +367,13 @@ func c11UCase(o *hx.Out, x1, x2 []int64, alt int, stream string) {
 			if len(t) == 1 {
 				regime = "all-equal"
 			}
-			// known finding: two-sided p-value with a tie vector that is not a palindrome,
-			// where the code's value differs from twice the smaller tail
-			if alt == 0 && ties && len(t) > 1 && !c11Palindrome(t) && isNum {
-				want, finding := c11SpecTwoSided(t, n1, n2, twoU)
-				near := func(a, b float64) bool { return math.Abs(a-b) <= 1e-9*math.Max(b, 1e-300) }
-				if !near(p, want) && near(p, finding) {
+			// known finding C11_twosided_asymmetric_ties, decided from the INPUT alone: the
+			// two-sided alternative in the exact regime, a tied tie vector that is not a
+			// palindrome, and the code's rule (1 if U1 == U2, else the lower tail at
+			// min(U1,U2) doubled and capped), simulated on the exact distribution in big
+			// integers, gives a fraction different from twice the smaller tail capped at 1
+			if alt == 0 && ties && len(t) > 1 && !c11Palindrome(t) {
+				if _, _, differ := c11SpecTwoSided(t, n1, n2, twoU); differ {
 					tags = append(tags, c11FindingTag)
 					o.Count("finding:" + c11FindingTag)
 				}
@@ -333,8 +383,15 @@ func c11UCase(o *hx.Out, x1, x2 []int64, alt int, stream string) {
 			if len(t) == 1 {
 				regime = "all-equal-large"
 			} else {
+				// the argument as the code forms it (for the model, bit for bit) and the
+				// declarative argument -z/sqrt 2 evaluated with 200-bit arithmetic and
+				// rounded once (for the specification; usually the same float or its neighbour)
 				arg := c11ErfcArg(t, n1, n2, twoU, alt)
 				oracle = append(oracle, hx.L(hx.F64(arg), hx.F64(math.Erfc(arg))))
+				if a2 := c11ErfcArgExact(t, n1, n2, twoU, alt); a2 != arg {
+					oracle = append(oracle, hx.L(hx.F64(a2), hx.F64(math.Erfc(a2))))
+					o.Count("approx:declarative-erfc-argument-differs-from-the-code's")
+				}
 			}
 		}
 	}
@@ -399,7 +456,8 @@ func c11DCase(o *hx.Out, r *hx.Rng, n1, n2 int, t []int, stream string) {
 	for q := 0; q <= 4*n1*n2+4; q += 2 {
 		add(q)
 	}
-	for i := 0; i < 3; i++ {
+	// quarter points: PMF rounds down to the grid of half-integers
+	for i := 0; i < 5; i++ {
 		add(1 + 2*r.Intn(2*n1*n2+2))
 	}
 	o.Count("udist:" + stream)
@@ -433,6 +491,10 @@ func c11FewPoints(r *hx.Rng, n1, n2 int, tied bool) []int {
 	qs := []int{-step, 0, step, mid - step, mid, mid + step, m - step, m, m + step}
 	for i := 0; i < 6; i++ {
 		qs = append(qs, step*r.Intn(m/step+1))
+	}
+	// points off the support: half-integers of an untied distribution, quarter points
+	for i := 0; i < 3; i++ {
+		qs = append(qs, 1+r.Intn(m+2), 2+4*r.Intn(m/4+1))
 	}
 	return qs
 }
@@ -479,7 +541,7 @@ func c11Compositions(N int, f func([]int)) {
 
 func genC11(o *hx.Out, r *hx.Rng, tier string, replay string) error {
 	thorough := tier == "thorough"
-	o.Rule = "kind utest: every pair of multisets over the ordered alphabet {0,1,2,3} with sizes up to the bound (presented in shuffled order) x 3 alternatives, empty samples, random samples with sizes 20-60 on both sides of the 25/50 switches (untied, heavily tied, lightly tied, all equal, shifted); a deterministic sweep over every pooled size N = 18..50 in the tied exact regime (all near-even splits, a subset of the others; big runs, several runs, light ties) and N = 18..36 untied; untied samples with BOTH sizes in 30..50 (per seed one balanced pair 38..50 each, one equal pair 34..50, one unbalanced pair 30..33 vs 47..50 in either order, one free pair; C(n1+n2,n1) > 2^64 for all) with the statistic placed, by random adjacent exchanges, at 8 positions of the null distribution (both extreme tails, both 2.5-4 sigma tails, both 0.1-1.5 sigma shoulders, the centre and its neighbour) x 3 alternatives, and the same distributions through UDist.CDF/PMF at these points, U + 1/2 and the usual end/centre/random points; constant samples given by their sizes (n1 and n2 copies of one value, up to 165146+165146 values: must be ErrSamplesEqual); kind udist: every tie vector (composition of N) x every n1 through UDist.CDF/PMF at every half-integer plus quarter points, untied UDist for all small n1,n2. kind history: series of calls whose two samples are windows of ONE backing array of the caller (series[:k] vs series[k:] for every k in rising, falling and random order, either window first; x[:4] vs x[2:]; overlapping, nested, identical, disjoint windows; longer series whose adjacent windows fall on both sides of the 50 / 25 switches), the array compared with its original values after every call and every call judged on the original values; kind concurrent: batches of 12 different sample pairs (exact tied / untied, normal approximation tied / untied) run sequentially and then by 8, 12, 16 goroutines at once, GOMAXPROCS 4, 8, 16 in a plain binary and GOMAXPROCS 4, 8 in a binary built with -race (a process that dies counts as a panic of every job): every concurrent outcome equals the sequential one, race detector silent. non-trivial = not an error case; distinct by input"
+	o.Rule = "kind utest: every pair of multisets over the ordered alphabet {0,1,2,3} with sizes up to the bound (presented in shuffled order) x 3 alternatives, empty samples, random samples with sizes 20-60 on both sides of the 25/50 switches (untied, heavily tied, lightly tied, all equal, shifted); a deterministic sweep over every pooled size N = 18..50 in the tied exact regime (all near-even splits, a subset of the others; big runs, several runs, light ties) and N = 18..36 untied; untied samples with BOTH sizes in 30..50 (per seed one balanced pair 38..50 each, one equal pair 34..50, one unbalanced pair 30..33 vs 47..50 in either order, one free pair; C(n1+n2,n1) > 2^64 for all) with the statistic placed, by random adjacent exchanges, at 8 positions of the null distribution (both extreme tails, both 2.5-4 sigma tails, both 0.1-1.5 sigma shoulders, the centre and its neighbour) x 3 alternatives, and the same distributions through UDist.CDF/PMF at these points, U + 1/2 and the usual end/centre/random points; tied samples with N > 20 separated or almost separated (one-sided p-values down to 1/C(N,n1)); constant samples given by their sizes (n1 and n2 copies of one value, up to 165146+165146 values: must be ErrSamplesEqual); kind udist: every tie vector (composition of N) x every n1 (one-run vectors included: a panic or the degenerate distribution) through UDist.CDF/PMF at every half-integer plus quarter points (PMF rounds down to the grid of half-integers; half-integers of an untied distribution carry no mass), untied UDist for all small n1,n2. kind history: series of calls whose two samples are windows of ONE backing array of the caller (series[:k] vs series[k:] for every k in rising, falling and random order, either window first; x[:4] vs x[2:]; overlapping, nested, identical, disjoint windows; longer series whose adjacent windows fall on both sides of the 50 / 25 switches), the array compared with its original values after every call and every call judged on the original values; kind concurrent: batches of 12 different sample pairs (exact tied / untied, normal approximation tied / untied) run sequentially and then by 8, 12, 16 goroutines at once, GOMAXPROCS 4, 8, 16 in a plain binary and GOMAXPROCS 4, 8 in a binary built with -race (a process that dies counts as a panic of every job): every concurrent outcome equals the sequential one, race detector silent. non-trivial = not an error case; distinct by input"
 	nmax := 4
 	if thorough {
 		nmax = 5
@@ -765,6 +827,40 @@ func genC11(o *hx.Out, r *hx.Rng, tier string, replay string) error {
 					c11DCaseAt(o, n1, n2, t, c11FewPoints(r, n1, n2, true), stream)
 				}
 			}
+		}
+	}
+	// (g') tied samples, pooled size above 20, separated or almost separated: the
+	// statistic at or next to either end of its range, so that the one-sided p-values
+	// are as small as 1/C(N, n1) ~ 1e-14 (the complement 1 - CDF has to resolve them)
+	nsep := 6
+	if thorough {
+		nsep = 60
+	}
+	for i := 0; i < nsep; i++ {
+		n1, n2 := r.Range(20, 25), r.Range(20, 25)
+		if i%3 == 0 {
+			n1, n2 = r.Range(11, 25), r.Range(11, 25)
+		}
+		lo, hi := make([]int64, n2), make([]int64, n1)
+		for k := range lo {
+			lo[k] = int64(r.Intn(2))
+		}
+		for k := range hi {
+			hi[k] = 10 + int64(r.Intn(3))
+		}
+		hi[0], lo[0] = 10, 0
+		if n1 > 1 {
+			hi[1] = 10 // at least one tie
+		}
+		switch r.Intn(3) {
+		case 1:
+			hi[r.Intn(n1)] = 1 // one value inside the other sample's range
+		case 2:
+			lo[r.Intn(n2)] = 10
+		}
+		for _, alt := range alts {
+			c11UCase(o, hi, lo, alt, "tied-separated")
+			c11UCase(o, lo, hi, alt, "tied-separated")
 		}
 	}
 	// (h) untied sizes N = 18..36, same scheme (near-even splits, subset of the rest)
